@@ -64,7 +64,7 @@ varintWidth varintPFORComputeThreshold(const uint64_t *values, uint32_t count,
 
     /* Find min and threshold percentile */
     uint64_t min = sorted[0];
-    uint32_t thresholdIndex = (count * threshold) / 100;
+    uint32_t thresholdIndex = (uint32_t)(((uint64_t)count * threshold) / 100);
     if (thresholdIndex >= count) {
         thresholdIndex = count - 1;
     }
